@@ -17,7 +17,8 @@ THEOREMS = ["C13.unroll_matches", "C13.registered_policies", "C13.registries_con
 
 def run(ctx):
     ctx.rule = ("the full finite lattice: every TFLOperationName x activation {none,8,16 bit x sym/asym} x weight {4,8,16} x {sym,asym} x "
-                "{tensor,channel}wise x {INT,FLOAT} x compute precision x explicit_dequantize x 2 algorithms, enumerated exhaustively: "
+                "{tensor,channel}wise x {INT,FLOAT} x compute precision x explicit_dequantize x 2 algorithms (plus BLOCKWISE weights with a usable "
+                "and an unusable block size), enumerated exhaustively: "
                 "model vs algorithm_manager.check_op_quantization_config, update-time refusal through Quantizer.update_quantization_recipe, "
                 "and resolution-time skipping under '*'; distinct = distinct lattice points")
     ctx.explanation = ("Decision logic is proved over the regenerated tables (accepted => legal runtime mode for every config, refuse/accept at "
@@ -123,18 +124,26 @@ def runtime_half(ctx, drv, accepted):
                 variants = [(None, True, gm.BENIGN_KINDS), (None, False, gm.BENIGN_KINDS)]
             elif o in ("FULLY_CONNECTED", "CONV_2D", "CONV_2D_TRANSPOSE") and d.get("act") is not None:
                 variants = [(None, True, gm.BENIGN_KINDS), (None, True, ["deadrow"])]
+            # operators that hand THEIR parameters down to their operands (same scale as the output) get a variant whose other operands are
+            # CONSTANTS: the constants must come out with the output's parameters, or the runtime refuses the operator
+            need_tag = None
+            if o == "CONCATENATION":
+                variants = [(None, True, gm.BENIGN_KINDS), (None, True, gm.BENIGN_KINDS, "concat_multi_const")]
             for rep in range(reps * len(variants)):
-                bmm_force, use_enum, const_kinds = variants[rep % len(variants)]
+                bmm_force, use_enum, const_kinds = variants[rep % len(variants)][:3]
+                need_tag = variants[rep % len(variants)][3] if len(variants[rep % len(variants)]) > 3 else None
+                if need_tag:
+                    ctx.tag("runtime_" + need_tag)
                 if const_kinds != gm.BENIGN_KINDS:
                     ctx.tag("runtime_dead_channel_weights")
                 if ctx.left() < 25:
                     ctx.extra["runtime_truncated_at"] = n
                     return
                 kinds = [o] if o in gm.Grower.SUPPORTED else [ctx.rng.choice(["FULLY_CONNECTED", "TANH", "ADD"])]
-                for _try in range(20):   # the random graph inputs must have a rank the operator template accepts
+                for _try in range(20 if need_tag is None else 60):   # the random graph inputs must have a rank the operator template accepts
                     mb, info = gm.gen_model(ctx.rng, n_ops=1, n_subgraphs=1, kinds=kinds, p_unsupported=0.0, const_kinds=const_kinds, alias_sig=0.0,
                                             allow_dead=0.0, bmm_force=bmm_force)
-                    if o in info["subgraphs"][0]["ops"] or o not in gm.Grower.SUPPORTED:
+                    if (o in info["subgraphs"][0]["ops"] or o not in gm.Grower.SUPPORTED) and (need_tag is None or need_tag in info["tags"] or _try == 59):
                         break
                 if o not in info["subgraphs"][0]["ops"] and o in gm.Grower.SUPPORTED:
                     ctx.tag("runtime_not_built:" + o)
